@@ -13,43 +13,75 @@ def outTry : Outcome (Option (List Word)) → String
   | .ok none => "none"
   | .panic => "PANIC"
 
-/-- Model answers of the three readers on a slice at address offset `a`. -/
-def readersModel (a : Fin 8) (bs : List Byte) : String :=
-  s!"{outWords (bytesToWords a bs)}|{outWords (bytesToWordsVec a bs)}|{outTry (tryBytesToWords a bs)}"
+/-- Model answers of the two borrowed readers on a slice at address misalignment `a`. -/
+def borrowedModel (a : Fin 8) (bs : List Byte) : String :=
+  s!"{outWords (bytesToWords a bs)}|{outTry (tryBytesToWords a bs)}"
 
-/-- What the property demands of the three readers — no address involved: a length that is a
-multiple of 8 converts; otherwise the two asserting forms panic (documented) and the fallible
-form answers `None`. -/
-def readersSpec (bs : List Byte) : String :=
+/-- What the property demands of the borrowed readers — no address involved: a length that is a
+multiple of 8 converts; otherwise the asserting form panics (documented) and the fallible form
+answers `None`. -/
+def borrowedSpec (bs : List Byte) : String :=
   match bytesWords bs with
-  | some ws => s!"{hexWords ws}|{hexWords ws}|{hexWords ws}"
-  | none => "PANIC|PANIC|none"
+  | some ws => s!"{hexWords ws}|{hexWords ws}"
+  | none => "PANIC|none"
 
-/-- `w2b`, `conv`: model, cross-checked against the address-free spec (`MODEL-SPEC` when the model
-— i.e. the code as modelled — departs from it).  `json` / `bp` / `bv`: implementation-vs-
-implementation glue (original vs rebuilt-from-serialized-parts, compared in-process by the
-harness); the model side only states the expected verdict `EQ` (tools/props/C31.py canonicalises
-the harness's `EQ n=… d=…`). -/
+/-- The copying reader per the spec (byte gather / documented panic). -/
+def vecSpec (bs : List Byte) : String :=
+  match bytesWords bs with
+  | some ws => hexWords ws
+  | none => "PANIC"
+
+/-- `SemiIndex::from_bytes(ib, bp)` = two `bytes_to_words_vec` calls; panics if either does. -/
+def semiModel (a1 a2 : Fin 8) (ib bp : List Byte) : String :=
+  match bytesToWordsVec a1 ib, bytesToWordsVec a2 bp with
+  | .ok x, .ok y => s!"{hexWords x};{hexWords y}"
+  | _, _ => "PANIC"
+
+def fin8 (off : Nat) : Fin 8 := ⟨off % 8, Nat.mod_lt _ (by decide)⟩
+
+/-- `w2b`, `conv`, `vec`, `semi`: model, cross-checked against the address-free spec (`MODEL-SPEC`
+when the model — i.e. the code as modelled — departs from it).  The placement `off` (0..15, relative
+to a 16-aligned base) enters the model only as the address misalignment `off % 8`.
+`json` / `bp` / `bv`: implementation-vs-implementation glue (original vs rebuilt-from-serialized-
+parts, compared in-process by the harness); the model side only states the expected verdict `EQ`
+(tools/props/C31.py canonicalises the harness's `EQ n=… d=…`). -/
 def exec (a : List String) : String :=
   match a with
   | ["w2b", ws] =>
     let ws := parseWords ws
     let bytes := wordsToBytes ws
-    let m := s!"{hexBytes bytes}|{readersModel 0 bytes}"
+    let m := s!"{hexBytes bytes}|{outWords (bytesToWords 0 bytes)}|{outWords (bytesToWordsVec 0 bytes)}|{outTry (tryBytesToWords 0 bytes)}"
     let h := hexWords ws
     let s := s!"{hexBytes (wordsBytes ws)}|{h}|{h}|{h}"
     if m ≠ s then s!"MODEL-SPEC {m} SPEC {s}" else m
   | ["conv", off, bytes] =>
     let bs := parseBytes bytes
     let off := parseNat off
-    if h : off < 8 then
-      let m := readersModel ⟨off, h⟩ bs
-      let s := readersSpec bs
+    if off < 16 then
+      let m := borrowedModel (fin8 off) bs
+      let s := borrowedSpec bs
       if m ≠ s then s!"MODEL-SPEC {m} SPEC {s}" else m
     else "BAD-OFFSET"
-  | ["json", _] => "EQ"
-  | ["bp", _, _] => "EQ"
-  | ["bv", _, _] => "EQ"
+  | ["vec", off, bytes] =>
+    let bs := parseBytes bytes
+    let off := parseNat off
+    if off < 16 then
+      let m := outWords (bytesToWordsVec (fin8 off) bs)
+      let s := vecSpec bs
+      if m ≠ s then s!"MODEL-SPEC {m} SPEC {s}" else m
+    else "BAD-OFFSET"
+  | ["semi", o1, o2, ib, bp] =>
+    let o1 := parseNat o1; let o2 := parseNat o2
+    if o1 < 16 ∧ o2 < 16 then
+      let m := semiModel (fin8 o1) (fin8 o2) (parseBytes ib) (parseBytes bp)
+      let s := match bytesWords (parseBytes ib), bytesWords (parseBytes bp) with
+        | some x, some y => s!"{hexWords x};{hexWords y}"
+        | _, _ => "PANIC"
+      if m ≠ s then s!"MODEL-SPEC {m} SPEC {s}" else s!"{m}|{m}"
+    else "BAD-OFFSET"
+  | ["json", _, _] => "EQ"
+  | ["bp", _, _, _] => "EQ"
+  | ["bv", _, _, _] => "EQ"
   | _ => "BAD-OP"
 
 end SV.Drv.C31
